@@ -77,3 +77,9 @@ def mid_env(spec):
         kind = p.split("_")[0]
         env[p] = {"v": 1, "s": 1, "lo": -3, "hi": 4}[kind]
     return env
+
+
+def extremes(env):
+    """z3 Bool: some symbolic box bound sits on the edge of the default 16-bit range (used to bias a second validation sample)"""
+    ext = [v.e == LO16 for k, v in env.items() if k.startswith("lo_")] + [v.e == HI16 for k, v in env.items() if k.startswith("hi_")]
+    return z3.Or(ext) if ext else None
